@@ -247,39 +247,32 @@ mod v_storage_assembler {
         kani::cover!(used(&a) == MAX, "full state rebuilt");
     }
 
-    // @harness props=C15 cfg=KS tier=q to=900 mem=8 unwind=6 opts=nomem covers=2 funcs=Assembler::add;Assembler::remove_front;Assembler::add_then_remove_front bounds=real_history_from_new():_add,add,atrf,add,remove_front,atrf_with_symbolic_offset,size<=20_(size_0_=_skip)
+    // @harness props=C15 cfg=KS tier=q to=900 mem=8 unwind=6 opts=nomem covers=2 funcs=Assembler::add;Assembler::remove_front;Assembler::add_then_remove_front bounds=real_history_from_new():_add,add,atrf,remove_front_with_symbolic_offset,size<=12_(size_0_=_skip)
     #[kani::proof]
     pub(crate) fn asm_history() {
-        // exact-set semantics along a real history, against a ghost bitmap of 64 positions
+        // exact-set semantics along a real history, against a ghost bitmap
         let mut a = Assembler::new();
         let mut ghost: u64 = 0;
-        let mut refused = false;
         fn mask(o: usize, s: usize) -> u64 {
             if s == 0 { 0 } else { ((1u64 << s) - 1) << o }
         }
-        let (o1, s1, o2, s2, o3, s3, o4, s4, o5, s5) = (any_le(20), any_le(20), any_le(20), any_le(20), any_le(20), any_le(20), any_le(20), any_le(20), any_le(20), any_le(20));
-        if a.add(o1, s1).is_ok() { ghost |= mask(o1, s1); } else { refused = true; }
-        if a.add(o2, s2).is_ok() { ghost |= mask(o2, s2); } else { refused = true; }
+        let (o1, s1, o2, s2, o3, s3) = (any_le(12), any_le(12), any_le(12), any_le(12), any_le(12), any_le(12));
+        if a.add(o1, s1).is_ok() { ghost |= mask(o1, s1); }
+        if a.add(o2, s2).is_ok() { ghost |= mask(o2, s2); }
         assert!(inv(&a), "prop:c15_history_canonical_form");
-        match a.add_then_remove_front(o3, s3) {
-            Ok(n) => { ghost = (ghost | mask(o3, s3)) >> n; }
-            Err(_) => { refused = true; }
+        let mut n1 = 0;
+        if let Ok(n) = a.add_then_remove_front(o3, s3) {
+            ghost = (ghost | mask(o3, s3)) >> n;
+            n1 = n;
         }
         assert!(inv(&a), "prop:c15_history_canonical_form");
-        if a.add(o4, s4).is_ok() { ghost |= mask(o4, s4); } else { refused = true; }
         let n = a.remove_front();
         ghost >>= n;
         assert!(inv(&a), "prop:c15_history_canonical_form");
-        match a.add_then_remove_front(o5, s5) {
-            Ok(n) => { ghost = (ghost | mask(o5, s5)) >> n; }
-            Err(_) => { refused = true; }
-        }
-        assert!(inv(&a), "prop:c15_history_canonical_form");
-        let x = any_lt(64);
+        let x = any_lt(40);
         assert!(present(&a, x) == ((ghost >> x) & 1 == 1), "prop:c15_history_reports_exact_union");
         kani::cover!(ghost != 0 && used(&a) >= 2, "two ranges tracked at the end");
-        kani::cover!(n > 0 && ghost != 0, "front removed mid-history");
-        let _ = refused;
+        kani::cover!(n1 > 0 && ghost != 0, "front removed mid-history");
     }
 
     // @harness props=C15 kind=mustfail cfg=KS tier=q to=600 mem=6 unwind=6 opts=nomem
